@@ -5,9 +5,39 @@
 
 namespace QtLogger {
 
+namespace {
+
+// Matches text against a pattern in which '*' stands for any (possibly empty) run of
+// characters. Done by hand: a regular expression with many '.*' exhausts the match limit of
+// the regular expression engine, and a match that failed for that reason looks like "no match".
+QTLOGGER_DECL_SPEC
+bool wildcardMatch(const QString &pattern, const QString &text)
+{
+    int p = 0, t = 0, star = -1, mark = 0;
+    while (t < text.size()) {
+        if (p < pattern.size() && pattern.at(p) == QLatin1Char('*')) {
+            star = p++;
+            mark = t;
+        } else if (p < pattern.size() && pattern.at(p) == text.at(t)) {
+            ++p;
+            ++t;
+        } else if (star >= 0) {
+            p = star + 1;
+            t = ++mark;
+        } else {
+            return false;
+        }
+    }
+    while (p < pattern.size() && pattern.at(p) == QLatin1Char('*'))
+        ++p;
+    return p == pattern.size();
+}
+
+} // namespace
+
 struct CategoryFilter::Rule
 {
-    QRegularExpression category;
+    QString category;
     QtMsgType type;
     bool typeMatch;
     bool enabled;
@@ -42,11 +72,7 @@ void CategoryFilter::parseRules(const QString &rules)
 
         auto rule = QSharedPointer<Rule>::create();
 
-        auto category = match.captured(1);
-        category = QRegularExpression::escape(category);
-        category.replace("\\*", ".*");
-
-        rule->category = QRegularExpression("^" + category + "$");
+        rule->category = match.captured(1);
         rule->type = stringToQtMsgType(match.captured(2));
         rule->typeMatch = !match.captured(2).isEmpty();
         rule->enabled = match.captured(3) == "true";
@@ -58,7 +84,7 @@ void CategoryFilter::parseRules(const QString &rules)
 QTLOGGER_DECL_SPEC
 bool CategoryFilter::Rule::matches(const QString &category, QtMsgType messageType) const
 {
-    return this->category.match(category).hasMatch() && (!typeMatch || type == messageType);
+    return (!typeMatch || type == messageType) && wildcardMatch(this->category, category);
 }
 
 QTLOGGER_DECL_SPEC
